@@ -908,7 +908,11 @@ impl<D: Dispatcher> Conn<D> {
                     }
                     payload_length = payload_info.length as u32;
 
-                    let mut pool_buff = payload_buffer_pool.acquire_buffer(payload_info.length).await.unwrap();
+                    let Some(mut pool_buff) = payload_buffer_pool.acquire_buffer(payload_info.length).await else {
+                      let err_message = Message::Error(ErrorParameters{id: payload_info.id, reason: InternalServerError.into(), detail: Some("no payload buffer available".into())});
+                      Self::write_message(&err_message, None, writer, message_buffer_pool.acquire_buffer().await).await?;
+                      break 'connection_loop;
+                    };
 
                     let payload = &mut pool_buff.as_mut_slice()[..payload_info.length];
 
